@@ -176,6 +176,8 @@ SYN = [  # read-only accessor -> underlying attribute (confirmed by reading: eac
     (re.compile(r"__key__\(self\._EVSEs\)|__elem__\(self\._EVSEs(\.keys\(\))?\)|__item__\(__elem__\(self\._EVSEs\.items\(\)\), 0\)"), "__elem__(self.station_ids)"),
     (re.compile(r"__idx__\(self\._EVSEs(\.values\(\)|\.keys\(\)|\.items\(\))?\)"), "__idx__(self.station_ids)"),
     (re.compile(r"self\._EVSEs\[__elem__\(self\.station_ids\)\]\.station_id\b"), "__elem__(self.station_ids)"),
+    # a component taken by unpacking is the component taken by index:  `ts, ev = q[0]` -> ts is q[0][0]
+    (re.compile(r"__item__\(((?:[A-Za-z_]\w*)(?:\.\w+|\[[^\[\]()]*\])*), (\d+)\)"), r"\1[\2]"),
 ]
 
 
